@@ -62,6 +62,11 @@ def jobs(tier, seed):
             p = gen.random_program(rng, ALPHA, 4, 2, reps=(1,))
             if gen.count_leaves(p) <= 8:
                 out.append({'prog': p, 'random': True})
+    R_ = ['R', 0, 'ALL', 'unset']
+    for prog in ({'steps': [{'k': ['W', 0, 'ALL'], 'rel': None}, {'k': ['S', {'steps': [{'k': R_, 'rel': None}, {'k': ['W', 0, 'ALL'], 'rel': None}]}], 'rel': None}, {'k': ['W', 0, 'ALL'], 'rel': None}]},
+                 {'steps': [{'k': ['S', {'steps': [{'k': ['W', 1, 'ALL'], 'rel': None}, {'k': R_, 'rel': ['S', 0]}]}], 'rel': None}, {'k': ['W', 1, 'ALL'], 'rel': ['F', 0]}]},
+                 {'steps': [{'k': R_, 'rel': None}, {'k': ['W', 0, 'ALL'], 'rel': None}]}):
+        out.append({'prog': prog, 'late_set': True})
     k = 0
     for j in out:
         if any(st['k'][0] == 'S' for st in j['prog']['steps']):
@@ -144,6 +149,20 @@ def run(ctx, params):
     followers(built.nodes)
     # the same two clauses after a nested block grew through the handle add() returned for it: the durations are read first (plain
     # property reads, no listing in between), the listing they are compared with afterwards
+    if params.get('late_set'):
+        # a registry key is assigned for the first time after the durations were read once; they are read again before any listing
+        for i, key in enumerate(built.unset_keys):
+            built.registry.set_registry_at(key, ctx.real(f'v_late{i}', lo=0))
+        d_top = circuit.circuit_structure.duration
+        d_subs = [(n, n.obj.duration) for n in built.all_nodes if n.is_sub]
+        entries = [(n.obj.start_time, n.obj.end_time) for n in built.nodes]
+        check_span(ctx, circuit.circuit_structure, 'top.assigned', 'circuit after first assignment of a registry key', inherited_e, reported=d_top, clause='C04.span.after_assignment')
+        for n, d_ in d_subs:
+            check_span(ctx, n.obj, n.label() + '.assigned', f'sub-circuit {n.label()} after first assignment', inherited_e, reported=d_, clause='C04.span.after_assignment')
+        again = [(n.obj.start_time, n.obj.end_time) for n in built.nodes]
+        ctx.check('C04.span.after_assignment.entries', s_and(*[s_and(a[0] == b[0], a[1] == b[1]) for a, b in zip(entries, again)]),
+                  {'fingerprint': 'duration_ne_span', 'before_listing': entries, 'after_listing': again, 'inherited_joined_end_in_listing': inherited_e})
+        return
     subs = [n for n in built.nodes if n.is_sub and n.leaves()]
     if subs and params.get('grow'):
         from qce_circuit.structure import circuit_operations as co_
